@@ -238,6 +238,21 @@ Definition step_agree (w : world) (st : step) : bool * world :=
     && same_multiset (enc_trace (r_trace r)) (unflatten (length (o_calls st)) (o_calls st)),
     r_world r).
 
+(* diagnostics: which component of a step disagrees (err, msgs, last msgs, snapshot, trace) *)
+Definition step_diag (w : world) (st : step) : list bool :=
+  let r := run_op w (s_op st) (s_fault st) in
+  let ms := visible_msgs (s_op st) (r_msgs r) in
+  [ r_err r =? o_err st;
+    same_multiset (map enc_msg ms) (map enc_msg (o_msgs st));
+    same_multiset (last_msgs ms) (last_msgs (o_msgs st));
+    same_multiset (enc_snap (snap_of (r_world r))) (enc_snap (o_snap st));
+    same_multiset (enc_trace (r_trace r)) (unflatten (length (o_calls st)) (o_calls st)) ].
+Fixpoint world_before (w : world) (l : list step) (i : nat) : world :=
+  match i, l with
+  | S j, st :: rest => world_before (r_world (run_op w (s_op st) (s_fault st))) rest j
+  | _, _ => w
+  end.
+
 Fixpoint steps_agree (w : world) (l : list step) : bool :=
   match l with
   | [] => true
@@ -367,7 +382,7 @@ Definition c12_step_ok (before : snap) (st : step) : bool :=
           | _ =>
             (* exactly one message per planned instance *)
             Nat.eqb (length ms) count
-            && forallb (fun m => match m with MCreateOk _ _ | MCreateFail _ => true | _ => false end) ms
+            && forallb (fun m => match m with MCreateOk _ _ | MCreateFail _ | MCreateErr => true | _ => false end) ms
             (* successes are truthful: recorded with the reported resources on the reported node, started *)
             && forallb (fun m => match m with
                                  | MCreateOk i rr =>
@@ -382,9 +397,28 @@ Definition c12_step_ok (before : snap) (st : step) : bool :=
             && same_multiset (map (fun x => enc_wid (fst x)) (sn_conts after))
                              (map (fun x => enc_wid (fst x)) (sn_conts before) ++ map (fun x => enc_wid (fst x)) (created_of ms))
           end)
-      (* no in-progress marker is left *)
-      && Nat.eqb (sn_markers after) (sn_markers before)
   | _ => true
+  end.
+
+(* the calls of the clean-up itself (the deferred removal and WAL commit of the lambda
+   closure).  The property quantifies over engine outcomes and failures to fetch logs or
+   wait; a fault injected into the clean-up is outside it (the compensation must succeed). *)
+Definition in_cleanup (f : cfault) : bool :=
+  match f_key f with
+  | KCall (m, t) =>
+    match m with
+    | MGetWorkloads | MPSetUsage | MRemoveWorkload | MERemove | MUnlock => true
+    | MWCommit => match t with TEvent (EvLambda _) => true | _ => false end
+    | MCreateLock | MLock =>
+      match t with
+      | TLock (LWl _) => true
+      | TLock (LPod _) => negb (Nat.eqb (f_ord f) 0)
+      | _ => false
+      end
+    | MGetNode => negb (Nat.eqb (f_ord f) 0)
+    | _ => false
+    end
+  | KSend => false
   end.
 
 (* C30 for one run-and-wait call *)
@@ -392,6 +426,7 @@ Definition c30_step_ok (before : snap) (st : step) : bool :=
   match s_op st with
   | OLambda opi _ _ _ _ _ ls =>
     if negb (o_err st =? 0) then true
+    else if match s_fault st with Some f => in_cleanup f | None => false end then true
     else
       let after := o_snap st in
       let ms := o_msgs st in
